@@ -24,4 +24,7 @@ package verifhook
 const Enabled = false
 
 // At does nothing without the verif build tag.
-func At(point string, id string) {}
+func At(point string, a interface{}) {}
+
+// At2 does nothing without the verif build tag.
+func At2(point string, a, b interface{}) {}
